@@ -8,6 +8,7 @@ require (
 	github.com/cosmos/iavl/v2 v2.0.0
 	github.com/cosmos/ics23/go v0.11.0
 	github.com/google/btree v1.1.3
+	github.com/syndtr/goleveldb v1.0.1-0.20210819022825-2ae1ddf74ef7
 )
 
 require (
@@ -34,7 +35,6 @@ require (
 	github.com/rs/zerolog v1.33.0 // indirect
 	github.com/spf13/cobra v1.9.1 // indirect
 	github.com/spf13/pflag v1.0.6 // indirect
-	github.com/syndtr/goleveldb v1.0.1-0.20210819022825-2ae1ddf74ef7 // indirect
 	golang.org/x/crypto v0.36.0 // indirect
 	golang.org/x/sys v0.31.0 // indirect
 	google.golang.org/protobuf v1.36.6 // indirect
